@@ -32,6 +32,10 @@ def run(run, model):
     run.do(c05.pos_table, model, "C02.args-table", "C02.posonly")
     run.do(c09.dispatch_table, model, "C02.error-dispatch")
     run.do(meta.snapshot_provenance, model, "C02.old-inherited")
+    run.do(c04.post_collapse, model, "C02.inherited-post")
+    run.do(c05.order_identity, model, "C02.args-order", "C02.args-identity")
+    from . import twins
+    run.do(twins.helper_dispatch, model, "C02.await-dispatch", "C02.sync-reject")
     run.minimum("C02.gate", 2)
     run.minimum("C02.result-identity", 11, "two returns per marker wrapper, one in the __new__ wrapper")
     run.minimum("C02.exc-transparent", 11)
